@@ -446,6 +446,16 @@ func (c *Channel) onHandshake() {
 	func() {
 		c.mu.Lock()
 		defer c.mu.Unlock()
+		// A prospective session which expired before it completed will never complete: drop it instead of
+		// retransmitting its messages, and start over if that leaves the channel without a usable session.
+		// (expireSessions otherwise runs only when Send is entered and from the rekey timer, which is not
+		// armed while a prospective session exists, so a waiting Send would block until its context ends.)
+		if s := c.sessions[2].Session; s != nil && s.ExpiresAt().Before(time.Now()) {
+			c.sessions[2] = sessionEntry{}
+			if c.sessions[1].Session == nil {
+				c.rekeyTimer.Reset(0)
+			}
+		}
 		for _, se := range c.sessions {
 			if se.Session != nil && !se.Session.IsReady() {
 				out := se.Session.Handshake(nil)
